@@ -929,10 +929,10 @@ func (x *e2Ctx) pathOf(v ssa.Value, d int) string {
 			return x.pathOf(cc.Args[0], d+1) + "." + sf.Name() + "(" + constArgs(cc.Args[1:]) + ")"
 		}
 		if sf := cc.StaticCallee(); sf != nil && len(cc.Args) > 0 {
+			if s, ok := x.expandPureHelper(t, d); ok {
+				return s
+			}
 			if x.callArgs {
-				if s, ok := x.expandPureHelper(t, d); ok {
-					return s
-				}
 				return sf.Name() + "(" + constArgsAll(x, cc.Args, d) + ")"
 			}
 			return x.pathOf(cc.Args[0], d+1) + "." + sf.Name() + "()"
@@ -961,6 +961,10 @@ func (x *e2Ctx) expandPureHelper(cl *ssa.Call, d int) (string, bool) {
 	}
 	rets := returnsOf(sf)
 	if len(rets) != 1 || len(rets[0].Results) != 1 {
+		return "", false
+	}
+	if !x.callArgs && len(sf.Blocks) != 1 {
+		// schema rendering: only straight-line expression helpers
 		return "", false
 	}
 	pure := true
